@@ -2,6 +2,7 @@ package props
 
 import (
 	"fmt"
+	"math"
 	"math/rand"
 	"reflect"
 	"strings"
@@ -31,6 +32,7 @@ type C04Node struct {
 	M           map[string]C04Leaf  `valid:"exist"`
 	MI          map[int]*C04Node    `valid:"exist"`
 	MU          map[uint64]C04Leaf  `valid:"exist"`
+	MF          map[float64]C04Leaf `valid:"exist"`
 	PP          **C04Leaf           `valid:"exist"`
 	Both        *C04Leaf            `valid:"required,exist"`
 	DecoyV      C04Leaf             // no marker: never validated
@@ -129,6 +131,9 @@ func c04Node(rng *rand.Rand, depth int) *C04Node {
 	}
 	if depth > 0 && rng.Intn(3) == 0 {
 		n.MI = map[int]*C04Node{-7: child(), 3: child()}
+	}
+	if rng.Intn(4) == 0 {
+		n.MF = map[float64]C04Leaf{math.NaN(): c04Leaf(rng), 1.5: c04Leaf(rng)} // an entry under a key that is not equal to itself
 	}
 	if rng.Intn(3) == 0 {
 		n.MU = map[uint64]C04Leaf{1 << 63: c04Leaf(rng), ^uint64(0): c04Leaf(rng), 5: c04Leaf(rng)}
